@@ -46,6 +46,9 @@ pub fn master(ke: &BigUint) -> Arc<Master> {
 #[derive(Serialize, Deserialize, Hash, Debug, Clone, PartialEq, Eq)]
 pub struct Base {
     pub ke: Hex,
+    /// 0: ke as given; 1: ke := H1(ID||03) (Q_B = [h1]P1 + Ppub-e becomes a doubling); 2: ke := 2*H1; 3: ke := H1 - 1
+    #[serde(default)]
+    pub ke_rel: u8,
     pub id_len: usize,
     pub id_seed: u64,
     pub msg_len: usize,
@@ -55,7 +58,15 @@ pub struct Base {
 
 impl Base {
     fn ke(&self) -> BigUint {
-        from_be(&self.ke) % (&r9::params().n - 1u32) + 1u32
+        let n = &r9::params().n;
+        let h1 = r9::h1(&self.id(), 0x03);
+        let k = match self.ke_rel {
+            1 => h1,
+            2 => (h1 * 2u32) % n,
+            3 => (h1 + n - 1u32) % n,
+            _ => from_be(&self.ke) % (n - 1u32) + 1u32,
+        };
+        if k == BigUint::from(0u32) { BigUint::one() } else { k }
     }
     fn r(&self) -> BigUint {
         from_be(&self.r) % (&r9::params().n - 2u32) + 1u32
@@ -118,7 +129,7 @@ pub struct TCase {
     pub tamper: Tamper,
 }
 
-fn check_tamper(c: &TCase) -> CaseResult {
+pub fn check_tamper(c: &TCase) -> CaseResult {
     let pr = r9::params();
     let b = &c.base;
     let m = master(&b.ke());
@@ -231,7 +242,7 @@ fn base_strategy() -> impl Strategy<Value = Base> {
         any::<u64>(),
         gen::scalar256(&n),
     )
-        .prop_map(|(ke, id_len, id_seed, msg_len, msg_seed, r)| Base { ke, id_len, id_seed, msg_len, msg_seed, r })
+        .prop_map(|(ke, id_len, id_seed, msg_len, msg_seed, r)| Base { ke, ke_rel: 0, id_len, id_seed, msg_len, msg_seed, r })
 }
 
 pub fn tamper_strategy() -> impl Strategy<Value = Tamper> {
@@ -252,7 +263,7 @@ fn fixed_bases(seed: u64, count: usize) -> Vec<Base> {
     (0..count)
         .map(|i| {
             let s = seed.wrapping_mul(9001) + i as u64;
-            Base { ke: gen::hex32(&BigUint::from(0x1234_5678u64 + (i as u64 % 2))), id_len: [3usize, 5, 0, 17][i % 4], id_seed: s ^ 1, msg_len: [20usize, 1, 32, 7][i % 4], msg_seed: s ^ 2, r: Hex(expand_bytes(s ^ 3, 32)) }
+            Base { ke: gen::hex32(&BigUint::from(0x1234_5678u64 + (i as u64 % 2))), ke_rel: 0, id_len: [3usize, 5, 0, 17][i % 4], id_seed: s ^ 1, msg_len: [20usize, 1, 32, 7][i % 4], msg_seed: s ^ 2, r: Hex(expand_bytes(s ^ 3, 32)) }
         })
         .collect()
 }
@@ -283,8 +294,19 @@ pub fn run(ctx: &Ctx) {
 
     let seed = ctx.seed;
     ctx.exhaustive("message_lengths_1_255", "every message length 1..=255 with r injected: exact ciphertext, independent decryption, round trip", move || {
-        (1..=255usize).map(|l| Base { ke: gen::hex32(&BigUint::from(0x1234_5678u64)), id_len: 1 + l % 11, id_seed: seed ^ l as u64, msg_len: l, msg_seed: seed.wrapping_mul(17) ^ l as u64, r: Hex(expand_bytes(seed ^ 0x1010 ^ l as u64, 32)) }).collect()
+        (1..=255usize).map(|l| Base { ke: gen::hex32(&BigUint::from(0x1234_5678u64)), ke_rel: 0, id_len: 1 + l % 11, id_seed: seed ^ l as u64, msg_len: l, msg_seed: seed.wrapping_mul(17) ^ l as u64, r: Hex(expand_bytes(seed ^ 0x1010 ^ l as u64, 32)) }).collect()
     }, check_encrypt);
+    let nrel = ctx.tier.pick(6u64, 40u64);
+    ctx.listed("master_key_related_to_h1", "master keys crafted from the identity: ke = H1(ID||03) (Q_B becomes a doubling), ke = 2*H1, ke = H1 - 1: exact ciphertext and round trip; reference ciphertext decrypts", move || {
+        let mut v = Vec::new();
+        for i in 0..nrel {
+            for rel in 1..=3u8 {
+                v.push(Base { ke: gen::hex32(&BigUint::one()), ke_rel: rel, id_len: 1 + (i as usize % 20), id_seed: seed ^ (0x5e1 + i), msg_len: 1 + (i as usize * 11) % 60, msg_seed: seed ^ i, r: Hex(expand_bytes(seed ^ 0x5e2 ^ i, 32)) });
+            }
+        }
+        v
+    }, |b| { check_encrypt(b)?; check_ref_encrypted(b) });
+
     ctx.generated("generated_fixed_r", "proptest (ke, identity, message, r): exact ciphertext", ctx.tier.pick(250, 8_000), base_strategy, check_encrypt);
     ctx.generated("reference_encrypted", "ciphertexts made by the reference decrypt under the library", ctx.tier.pick(300, 8_000), base_strategy, check_ref_encrypted);
 
